@@ -5,9 +5,10 @@ import (
 	"go/ast"
 	"go/parser"
 	"go/token"
+	"os"
 	"path/filepath"
-	"strings"
 	"reflect"
+	"strings"
 
 	"github.com/dave/dst"
 	"github.com/dave/dst/decorator"
@@ -388,6 +389,50 @@ func runC11(c *fw.Ctx) {
 			}
 			c.Count("packages_two_files", 1)
 			c.Nontrivial(id)
+			// the directory entry point: Decorator.ParseDir must leave the same correspondences in
+			// the Decorator it was called on
+			dir := filepath.Join(c.WorkDir, fmt.Sprintf("c11dir%d", i))
+			if os.MkdirAll(dir, 0755) != nil {
+				return
+			}
+			defer os.RemoveAll(dir)
+			for name, src := range srcs {
+				// one package name for the whole directory, so that ParseDir returns one package
+				b := []byte(src)
+				if af := apkg.Files[name]; af != nil {
+					off := fset.Position(af.Name.Pos()).Offset
+					b = append(append(append([]byte{}, b[:off]...), "pdir"...), b[off+len(af.Name.Name):]...)
+				}
+				os.WriteFile(filepath.Join(dir, name), b, 0644)
+			}
+			d3 := decorator.NewDecorator(token.NewFileSet())
+			var pkgs map[string]*dst.Package
+			if sig, detail := fw.Try(func() { pkgs, err = d3.ParseDir(dir, nil, parser.ParseComments) }); sig != "" {
+				c.Violate("decorate-panic", sig, id+" [ParseDir]\n"+detail, "")
+				return
+			}
+			if err != nil {
+				return
+			}
+			for pname, dp3 := range pkgs {
+				ap3, ok := d3.Ast.Nodes[dp3].(*ast.Package)
+				if !ok || ap3 == nil {
+					c.Violate("decorator/package-node", "decorator/package-node:ParseDir", fmt.Sprintf("%s: the *dst.Package %q returned by Decorator.ParseDir has no ast counterpart in the Decorator's map", id, pname), "")
+					continue
+				}
+				if d3.Dst.Nodes[ap3] != dst.Node(dp3) {
+					c.Violate("decorator/package-node", "decorator/package-node:ParseDir", id+": Dst.Nodes does not map the ast package back to the returned dst package", "")
+				}
+				for fname, df3 := range dp3.Files {
+					af3 := ap3.Files[fname]
+					if af3 == nil {
+						c.Violate("decorator/package-files", "decorator/package-files:ParseDir", id+": file "+fname+" of the returned package is not in the mapped ast package", "")
+						continue
+					}
+					c11Laws(c, id+"/ParseDir/"+filepath.Base(fname), "decorator", af3, df3, d3.Ast.Nodes, d3.Dst.Nodes, "")
+				}
+				c.Count("parsedir_packages", 1)
+			}
 		})
 	}
 	_ = reflect.TypeOf
